@@ -6,7 +6,7 @@ import ast
 from typing import List
 
 from ..core import rule
-from ..dataflow import DefUse
+from ..dataflow import DefUse, origins
 from ..prov import Analysis, BOT, Domain, flat, join
 from ..program import AnalysisError, dotted, src
 from ..core import walk_local  # inline-aware
@@ -198,6 +198,7 @@ def q1(ctx):
     once = bool(sets) and cfg.normal_completion_dominates(sets, cfg.exit) and \
         not any(t.id in cfg.after_normal(s_, follow_exc=False) for s_ in sets for t in sets)
     quoted_once = True
+    whole_ok = True
     nq = 0
     for s_ in sets:
         os_ = origins(du, s_, s_.ast.value)
@@ -208,6 +209,14 @@ def q1(ctx):
             nq += 1
             if not unquoted(o.node, o.leaf.args[0]):
                 quoted_once = False
+            # what is quoted is the href as a whole: a component of its URL-parsed form (`.path` of urlparse / urlsplit) has lost
+            # whatever in a name looks like a query, fragment or params part ('?', '#', ';')
+            for ao in origins(du, o.node, o.leaf.args[0]):
+                if ao.kind == "expr" and isinstance(ao.leaf, ast.Attribute) and ao.leaf.attr in ("path", "netloc", "query", "fragment", "params"):
+                    whole_ok = False
+    obs.append(ctx.ob(whole_ok, ch.qualname, ch.where, "create_href quotes the whole href", "quote(href), not quote(<parsed>.path)",
+                      "create_href quotes a component of the URL-parsed href: a '?', '#' or ';' inside a member name is taken for the start "
+                      "of a query, fragment or params part and dropped - the emitted href addresses another resource"))
     ok = once and quoted_once and nq >= 1
     obs.append(ctx.ob(ok, ch.qualname, ch.where, "create_href quotes the final href exactly once", "et.text = urllib.parse.quote(href)",
                       "create_href does not set the element text to quote(<final href>) exactly once (%d quote calls, %d text assignments)" % (nq, len(sets))))
@@ -662,3 +671,58 @@ def opaque_name_obligations(ctx):
            "through Unicode normalisation or case mapping (listing and lookup use the same spelling)")
 def n1(ctx):
     return opaque_name_obligations(ctx)
+
+
+@rule("C16", "H2", floor=1, kind="S",
+      desc="reports are resolved against the href of the request: the base href handed to a reporter is the href component "
+           "of _get_resource_from_environ (not the application-internal path, which lacks the route prefix)")
+def h2(ctx):
+    from .common import call_arg
+    fi = ctx.func(WD + ".ReportMethod.handle")
+    cfg = ctx.cfg(fi)
+    du = DefUse(cfg)
+    obs = []
+    for n in cfg.stmt_nodes():
+        for c in n.calls():
+            if isinstance(c.func, ast.Attribute) and c.func.attr == "report":
+                a = call_arg(ctx, fi, c, "base_href", 4) or call_arg(ctx, fi, c, "href", 4)
+                if a is None:
+                    raise AnalysisError("ReportMethod.handle: base href argument of reporter.report(...) not found")
+                os_ = origins(du, n, a)
+                ok = bool(os_) and all(o.kind == "expr" and tuple(o.path) == (0,) and isinstance(o.leaf.value if isinstance(o.leaf, ast.Await) else o.leaf, ast.Call)
+                                       and (dotted((o.leaf.value if isinstance(o.leaf, ast.Await) else o.leaf).func) or "").endswith("_get_resource_from_environ") for o in os_)
+                obs.append(ctx.ob(ok, fi.qualname, where(fi, n), "reporter gets the request href", "base_href <- _get_resource_from_environ(...)[0]",
+                                  "the reporter is given `%s` as base href, which is not the href of the request: under a route prefix every href of "
+                                  "the report lacks the prefix and addresses nothing" % src(a)))
+    if not obs:
+        raise AnalysisError("ReportMethod.handle: reporter.report(...) call not found")
+    return obs
+
+
+@rule("C16", "L2", floor=2, kind="S",
+      desc="the hidden configuration file is hidden in every view: both branches of both _iterblobs compare the DECODED "
+           "name with CONFIG_FILENAME (tree entries are bytes: a bytes/str comparison is never true and `.xandikos` "
+           "shows up in sync reports)")
+def l2(ctx):
+    obs = []
+    n_cmp = 0
+    for cq in ("xandikos.store.git.BareGitStore", "xandikos.store.git.TreeGitStore"):
+        f = ctx.own_method(cq, "_iterblobs")
+        cfg = ctx.cfg(f)
+        du = DefUse(cfg)
+        for t in [n for n in cfg.nodes if n.kind == "test" and isinstance(n.ast, ast.Compare) and len(n.ast.ops) == 1]:
+            sides = [t.ast.left, t.ast.comparators[0]]
+            if not any((dotted(x) or "").endswith("CONFIG_FILENAME") for x in sides):
+                continue
+            other = [x for x in sides if not (dotted(x) or "").endswith("CONFIG_FILENAME")][0]
+            n_cmp += 1
+            os_ = origins(du, t, other)
+            # names from the index (`for name, entry in index.items()`) and tree entries are bytes; a str comes out of .decode()
+            decoded = bool(os_) and all(o.kind == "expr" and isinstance(o.leaf, ast.Call) and isinstance(o.leaf.func, ast.Attribute)
+                                        and o.leaf.func.attr == "decode" for o in os_)
+            obs.append(ctx.ob(decoded, f.qualname, where(f, t), "config filter compares the decoded name", "name.decode(...) == CONFIG_FILENAME",
+                              "`%s` compares `%s` - bytes as they come from the tree / index - with the str CONFIG_FILENAME: the test is never true and "
+                              "the configuration file is listed as a member in this view" % (src(t.ast), src(other))))
+    if n_cmp < 2:
+        raise AnalysisError("only %d comparisons with CONFIG_FILENAME found in the _iterblobs implementations" % n_cmp)
+    return obs
